@@ -255,3 +255,38 @@ claim(
     "Not decided: the first sentence (a strict render that succeeds equals the default render).",
     "DESIGN.md section 5 C16",
 )
+
+claim(
+    "C19",
+    "TBL",
+    "static: per node/expression class, fields used while rendering ⊆ fields reported to the analyser; analyser visit shape",
+    "Clause (what a node renders ⊆ what it reports): for each of the ~35 node classes every "
+    "expression field evaluated or resolved while rendering is mentioned by expressions() (or "
+    "reached through child nodes it yields), every rendered child/block by children(), and every "
+    "name the node claims to bind (block_scope/template_scope/partial_scope) is really bound by "
+    "its render method; for each expression class every evaluated sub-expression is returned by "
+    "children(); every filters slot is read by _extract_filters; the analyser's visit collects "
+    "tags, expressions, scopes and children of every node. 2 open findings (implicit "
+    "`translations` read; inline-snippet name) are listed in known_findings.jsonl.",
+    "Not decided: the analyser's scope bookkeeping and partial de-duplication over visit "
+    "histories (a partial first visited inside a loop is not revisited outside it — recorded in "
+    "DESIGN.md, not detectable by a shape rule). Sync/async parity: C01.",
+    "DESIGN.md section 5 C19",
+)
+
+claim(
+    "C20",
+    "TBL",
+    "static: value-group / offset-group / source agreement at every Token construction; provenance of every Span; guard shape of error formatting",
+    "Clauses: at each of the 13 Token constructions of the template lexer, expression tokenizer "
+    "and liquid-tag tokenizer the offset is taken from the same regex group as the value (whole "
+    "match for match.group()), with the parent token's start_index added exactly when the source "
+    "is the parent's source; every Span in static analysis and tag analysis is located at the "
+    "token of the very item whose name keys the report and names the template being visited; "
+    "error formatting indexes the token's own source only after the start_index < 0 guard, and "
+    "every parse-time LiquidError raise passes token=.",
+    "Reviewed rows: quoted literals (string, ['ident'], [index]) carry the inner group as value "
+    "and the start of the whole literal as offset — pinned by the existing test-suite. Text "
+    "tokens are not reported items.",
+    "DESIGN.md section 5 C20",
+)
